@@ -720,6 +720,52 @@ def argument_reuse_checks():
         if hu != [5, 7] or any(g != want for g in got):
             bad.append(dict(case='one hidden_units list used for several networks', cls=cls.__name__, list_after=hu, layers=got, want=want,
                             violated=['architecture differs from the requested hidden layers / the caller\'s list was modified']))
+    # activations / feature maps are functions of their CURRENT parameters and of the degrees given at construction
+    import numpy as np
+    from neurodiffeq.networks import Swish, MonomialNN
+    xx = torch.tensor([[-1.5], [0.25], [2.0]], dtype=torch.get_default_dtype())
+    try:
+        for start in (1.0, 0.5):
+            sw = Swish(beta=start, trainable=True)
+            out = sw(xx).sum()
+            g, = torch.autograd.grad(out, sw.beta, allow_unused=True)
+            with torch.no_grad():
+                sw.beta.fill_(2.0)
+            got = sw(xx).detach()
+            sw2 = Swish(beta=start, trainable=True)
+            sw2.load_state_dict({'beta': torch.tensor(3.0)})
+            got2 = sw2(xx).detach()
+            if g is None or float(g.abs()) == 0.0 or not torch.allclose(got, xx * torch.sigmoid(2.0 * xx), rtol=1e-6, atol=1e-7) \
+                    or not torch.allclose(got2, xx * torch.sigmoid(3.0 * xx), rtol=1e-6, atol=1e-7):
+                bad.append(dict(case='Swish with a trainable beta', initial_beta=start, gradient_wrt_beta=None if g is None else float(g),
+                                violated=['the output is not x * sigmoid(beta x) for the current beta (after fill_ / load_state_dict), or beta receives no gradient']))
+    except Exception as e:
+        bad.append(dict(case='Swish with a trainable beta', violated=[f'{type(e).__name__}: {e}']))
+    try:
+        for kind, degs in (('numpy array', np.array([1, 3])), ('list', [1, 3])):        # (documented types: int, list, tuple; arrays are converted)
+            net = MonomialNN(degs)
+            before = net(xx).detach().clone()
+            if kind == 'list':
+                degs[0] = 4
+            else:
+                degs += 3
+            after = net(xx).detach()
+            want = torch.cat([xx ** 1, xx ** 3], dim=1)
+            if not torch.allclose(before, want, rtol=1e-6, atol=1e-7) or not torch.allclose(after, want, rtol=1e-6, atol=1e-7):
+                bad.append(dict(case='MonomialNN whose degrees argument is modified by the caller afterwards', degrees_given_as=kind,
+                                violated=['the network no longer computes the powers it was built with'], got=after.tolist(), want=want.tolist()))
+    except Exception as e:
+        bad.append(dict(case='MonomialNN whose degrees argument is modified by the caller afterwards', violated=[f'{type(e).__name__}: {e}']))
+    # the documented positional order of the constructor arguments (callers that do not use keywords)
+    for nm, mk, sel in (('FCNN(2, 3, None, None, Tanh, (16, 8))', lambda: FCNN(2, 3, None, None, torch.nn.Tanh, (16, 8)), lambda n_: n_),
+                        ('Resnet(2, 3, None, None, Tanh, (16, 8))', lambda: Resnet(2, 3, None, None, torch.nn.Tanh, (16, 8)), lambda n_: n_.residual)):
+        try:
+            got = widths(sel(mk()))
+            if got != [(2, 16), (16, 8), (8, 3)]:
+                bad.append(dict(case='hidden_units passed positionally', call=nm, layers=got, want=[(2, 16), (16, 8), (8, 3)],
+                                violated=['architecture differs from the requested hidden layers']))
+        except Exception as e:
+            bad.append(dict(case='hidden_units passed positionally', call=nm, violated=[f'{type(e).__name__}: {e}']))
     return bad
 
 
